@@ -22,6 +22,8 @@ use uuid::Uuid;
 use self::server::Server;
 
 pub mod server;
+#[cfg(feature = "verif-hooks")]
+pub mod verif;
 
 #[derive(Debug, PartialEq, Clone, Copy)]
 pub enum LspClient {
@@ -90,6 +92,8 @@ impl Router {
                         "Panic occurred with unknown cause".to_string()
                     };
                     error!("Panic message: {}", error_message);
+                    #[cfg(feature = "verif-hooks")]
+                    verif::emit(verif::Event::MessagePanicked(error_message.clone()));
                     false
                 });
 
@@ -105,6 +109,9 @@ impl Router {
             Message::Request(req) => {
                 let request = req;
                 let self_clone = self.clone();
+                #[cfg(feature = "verif-hooks")]
+                let _ = std::thread::spawn(move || verif::run_request(self_clone, request));
+                #[cfg(not(feature = "verif-hooks"))]
                 let _ = std::thread::spawn(move || self_clone.on_request(request));
                 false
             }
@@ -135,6 +142,11 @@ impl Router {
                 debug!("unhandled request: {}", default)
             }
         };
+
+        #[cfg(feature = "verif-hooks")]
+        verif::emit(verif::Event::NotificationApplied(
+            notification.method.clone(),
+        ));
 
         false
     }
@@ -212,6 +224,9 @@ impl Router {
         };
 
         // schedule update
+
+        #[cfg(feature = "verif-hooks")]
+        verif::emit(verif::Event::Computed(request.id.clone()));
 
         match response {
             Ok(value) => self.respond(Response {
